@@ -22,6 +22,10 @@ def make_program(name, seed, nA, nB, nC, mode, nested_method, flavours, marking=
             return False
         if mode == "diagonal":
             return len(set(idx)) == 1
+        if mode == "single":  # exactly one combination is defined
+            return list(idx) == [s - 1 for s in sizes]
+        if mode == "two":
+            return list(idx) == [s - 1 for s in sizes] or list(idx) == [0] * len(sizes)
         if mode == "row":
             return idx[0] != 1 % sizes[0]
         if mode == "random":
@@ -67,7 +71,7 @@ def make_program(name, seed, nA, nB, nC, mode, nested_method, flavours, marking=
     L.append("static int g_instantiated_fn_calls = 0;")
     L.append("template<typename Method, %s> struct impl { %s static int fn(%s) { ++g_instantiated_fn_calls; return %s; } };" %
              (tparams, "using method = Method;" if nested_method else "", fnparams, lin))
-    if marking == "conditional" or mode not in ("all", "none", "row", "random", "most", "diagonal"):
+    if marking == "conditional":
         L.append("template<typename Method, %s> struct definition : std::conditional_t<DEFINED[%s] != 0, impl<Method, %s>, not_defined> {};" % (tparams, lin, targs))
     elif marking == "private-base":
         # 'derives from not_defined' does not say publicly
@@ -165,8 +169,8 @@ def programs(tier, seed):
     fl = ["clang-asan"]
     specs = []
     # small: 1-3 lists of length 1-8, every not_defined pattern
-    modes = ["all", "none", "diagonal", "row", "random"]
-    for k in range(6 if tier == "quick" else 18):
+    modes = ["all", "none", "diagonal", "row", "random", "single", "two"]
+    for k in range(7 if tier == "quick" else 21):
         nA, nB = rng.randint(1, 8), rng.randint(1, 8)
         nC = rng.randint(1, 4) if rng.random() < 0.4 else 0
         specs.append((nA, nB, nC, modes[k % len(modes)], k % 2 == 0))
